@@ -213,6 +213,7 @@ type c11Server struct {
 	hsDelay   time.Duration // ... and delays the handshake of every connection but the first by this much (slow dial)
 	naccept   int
 	accepted  chan struct{}     // one token per accepted TCP connection
+	cutNext   int               // mode "cut": > 0: the next reply is written only up to this many bytes, then the connection is closed
 	holdFd    int               // mode "down": bound, not listening socket that reserves the port while the server is down (-1: none)
 	srvClosed map[net.Conn]bool // connections the server itself has closed from outside their serve goroutine
 	version   int16             // protocol version of the last request (for the close notification)
@@ -231,7 +232,7 @@ func c11Listen(port int) (net.Listener, error) {
 	return nil, err
 }
 
-func c11StartServer(mode string, k int, log *c11Log) (*c11Server, error) {
+func c11StartServer(mode string, k int, log *c11Log, useTLS bool) (*c11Server, error) {
 	ln, err := c11Listen(0)
 	if err != nil {
 		return nil, err
@@ -239,6 +240,8 @@ func c11StartServer(mode string, k int, log *c11Log) (*c11Server, error) {
 	s := &c11Server{ln: ln, port: ln.Addr().(*net.TCPAddr).Port, mode: mode, k: k, log: log, conns: map[net.Conn]bool{}, srvClosed: map[net.Conn]bool{}, version: 1, holdFd: -1, accepted: make(chan struct{}, 64)}
 	if mode == "tlsheld" {
 		s.tlsCfg, s.hsDelay = c11ServerTLS(), c11HandshakeDelay
+	} else if useTLS {
+		s.tlsCfg = c11ServerTLS()
 	}
 	s.wg.Add(1)
 	go s.acceptLoop(ln)
@@ -354,6 +357,40 @@ func (s *c11Server) closeConns() {
 		s.srvClosed[c] = true
 		c.Close()
 		delete(s.conns, c) // its serve goroutine may not have noticed yet when the next command comes
+	}
+}
+
+// c11CutLen clamps the number of bytes written of a package of n bytes to 1..n-1.
+func c11CutLen(at, n int) int {
+	if at < 1 {
+		at = 1
+	}
+	if at > n-1 {
+		at = n - 1
+	}
+	return at
+}
+
+// cutConns (mode "cut") writes the first bytes of a push package (kind "push": an arbitrary push with request id 0;
+// kind "notify": the close notification) on every open connection and closes the connection in the middle of it.
+func (s *c11Server) cutConns(kind string, at int) {
+	s.mu.Lock()
+	defer s.mu.Unlock()
+	for c := range s.conns {
+		push := requestf.ResponsePacket{IVersion: s.version, IRequestId: 0, SResultDesc: "_reconnect_"}
+		if kind == "push" {
+			push = requestf.ResponsePacket{IVersion: s.version, IRequestId: 0, SBuffer: tools.ByteToInt8([]byte("a pushed message that is cut off"))}
+		}
+		pb := codec.NewBuffer()
+		if err := push.WriteTo(pb); err != nil {
+			continue
+		}
+		frame := c11Frame(pb)
+		s.log.add(c11rawEvent{k: "pclose", port: c11PortOf(c.RemoteAddr()), id: -1})
+		c.Write(frame[:c11CutLen(at, len(frame))])
+		s.srvClosed[c] = true
+		c.Close()
+		delete(s.conns, c)
 	}
 }
 
@@ -534,7 +571,22 @@ func (s *c11Server) serve(c net.Conn) {
 			if err := rsp.WriteTo(ob); err != nil {
 				return
 			}
-			if _, err := c.Write(c11Frame(ob)); err != nil {
+			frame := c11Frame(ob)
+			s.mu.Lock()
+			cut := s.cutNext
+			if callNo != c11WarmID {
+				s.cutNext = 0
+			} else {
+				cut = 0
+			}
+			s.mu.Unlock()
+			if cut > 0 {
+				// close in the middle of the response
+				s.log.add(c11rawEvent{k: "pclose", port: port, id: -1})
+				c.Write(frame[:c11CutLen(cut, len(frame))])
+				return
+			}
+			if _, err := c.Write(frame); err != nil {
 				return
 			}
 			if callNo == c11WarmID {
@@ -611,6 +663,9 @@ type c11Case struct {
 	Rounds    int    `json:"rounds"`               // number of closes
 	OffsMs    []int  `json:"offs_ms,omitempty"`    // pushcmd: the calls of a round are issued this many ms after the observed client swap
 	PushClose bool   `json:"push_close,omitempty"` // pushcmd: the server closes the notified connection itself right after the notification
+	TLS       bool   `json:"tls,omitempty"`        // ssl endpoint: the scripted server speaks TLS, the client uses its configured TLS settings
+	CutKind   string `json:"cut_kind,omitempty"`   // mode cut: what the server is writing when it closes in the middle of a package: push | notify | response
+	CutAt     int    `json:"cut_at,omitempty"`     // mode cut: number of bytes of that package written before the close (clamped to 1..len-1)
 	QueueLen  int    `json:"queue_len,omitempty"`  // > 0: length of the client's send queue (default 10000)
 	PauseUs   int    `json:"pause_us,omitempty"`   // > 0: each round is two sets of calls on the same connection with this idle period between them
 
@@ -679,10 +734,10 @@ func c11RunScript(c *c11Case) ([]c11Event, string) {
 		c.Seq = 1
 	}
 	k := c.Burst * c.Seq * c11Halves(c)
-	if c.Mode == "held" || c.Mode == "heldq" || c.Mode == "pushcmd" || c.Mode == "down" || c.Mode == "tlsheld" {
+	if c.Mode == "held" || c.Mode == "heldq" || c.Mode == "pushcmd" || c.Mode == "down" || c.Mode == "tlsheld" || c.Mode == "cut" {
 		k = -1 // closes / notifies on command only
 	}
-	srv, err := c11StartServer(c.Mode, k, log)
+	srv, err := c11StartServer(c.Mode, k, log, c.TLS)
 	if err != nil {
 		return nil, "listen: " + err.Error()
 	}
@@ -696,7 +751,7 @@ func c11RunScript(c *c11Case) ([]c11Event, string) {
 	}
 	prx := &c11Prx{}
 	proto := "tcp"
-	if c.Mode == "tlsheld" {
+	if c.Mode == "tlsheld" || c.TLS {
 		proto = "ssl"
 		tars.VerifSetClientTLS(comm, &tls.Config{InsecureSkipVerify: true})
 	}
@@ -725,6 +780,9 @@ func c11RunScript(c *c11Case) ([]c11Event, string) {
 	if c.Mode == "tlsheld" {
 		return c11RunTLS(c, srv, sp, log), ""
 	}
+	if c.Mode == "cut" {
+		return c11RunCut(c, srv, sp, log), ""
+	}
 	callNo := 0
 	for round := 0; round <= c.Rounds; round++ {
 		if c.PauseUs > 0 {
@@ -751,7 +809,7 @@ func c11RunScript(c *c11Case) ([]c11Event, string) {
 					break
 				}
 			} else {
-				closed, conn := transport.VerifC11Conn(tc)
+				closed, conn := c11ConnOf(tc)
 				if closed && conn != nil {
 					observed = true
 					log.add(c11rawEvent{k: "obs", id: -1, port: c11PortOf(conn.LocalAddr())})
@@ -861,7 +919,7 @@ func c11RunHeld(c *c11Case, srv *c11Server, sp *tars.ServantProxy, log *c11Log) 
 		srv.closeConns()
 		observed := false
 		for deadline := time.Now().Add(4 * time.Second); time.Now().Before(deadline); time.Sleep(200 * time.Microsecond) {
-			if closed, conn := transport.VerifC11Conn(tcs[0]); closed && conn != nil {
+			if closed, conn := c11ConnOf(tcs[0]); closed && conn != nil {
 				observed = true
 				log.add(c11rawEvent{k: "obs", id: -1, port: c11PortOf(conn.LocalAddr())})
 				break
@@ -907,6 +965,16 @@ func c11RunHeld(c *c11Case, srv *c11Server, sp *tars.ServantProxy, log *c11Log) 
 	return c11Canon(log)
 }
 
+// c11ConnOf reads the closed flag and the current connection of a client; a failed TLS dial leaves a nil *tls.Conn
+// inside the interface, which is reported as no connection.
+func c11ConnOf(tc *transport.TarsClient) (bool, net.Conn) {
+	closed, conn := transport.VerifC11Conn(tc)
+	if t, ok := conn.(*tls.Conn); ok && t == nil {
+		return closed, nil
+	}
+	return closed, conn
+}
+
 // c11OneCall issues one call and logs its outcome.
 func c11OneCall(sp *tars.ServantProxy, log *c11Log, id int) {
 	log.add(c11rawEvent{k: "enq", id: id})
@@ -945,13 +1013,20 @@ func c11RunPush(c *c11Case, srv *c11Server, sp *tars.ServantProxy, log *c11Log) 
 		if !swapped {
 			return c11Canon(log)
 		}
+		if now := tars.VerifC11Clients(sp); len(now) > 0 {
+			a, b := transport.VerifC11Conf(before[0]), transport.VerifC11Conf(now[0])
+			if a.Proto != b.Proto || a.QueueLen != b.QueueLen || a.IdleTimeout != b.IdleTimeout || a.ReadTimeout != b.ReadTimeout ||
+				a.WriteTimeout != b.WriteTimeout || a.DialTimeout != b.DialTimeout || a.TlsConfig != b.TlsConfig {
+				log.add(c11rawEvent{k: "cfgdiff", id: -1})
+			}
+		}
 		t0 := time.Now()
 		for _, off := range c.OffsMs {
 			if d := time.Until(t0.Add(time.Duration(off) * time.Millisecond)); d > 0 {
 				time.Sleep(d)
 			}
 			if now := tars.VerifC11Clients(sp); len(now) > 0 {
-				if closed, conn := transport.VerifC11Conn(now[0]); conn != nil {
+				if closed, conn := c11ConnOf(now[0]); conn != nil {
 					log.add(c11rawEvent{k: "cflag", id: -1, port: c11PortOf(conn.LocalAddr()), dead: closed})
 				}
 			}
@@ -979,7 +1054,7 @@ func c11RunDown(c *c11Case, srv *c11Server, sp *tars.ServantProxy, log *c11Log) 
 		srv.goDown()
 		observed := false
 		for deadline := time.Now().Add(4 * time.Second); time.Now().Before(deadline); time.Sleep(200 * time.Microsecond) {
-			if closed, conn := transport.VerifC11Conn(tcs[0]); closed && conn != nil {
+			if closed, conn := c11ConnOf(tcs[0]); closed && conn != nil {
 				observed = true
 				log.add(c11rawEvent{k: "obs", id: -1, port: c11PortOf(conn.LocalAddr())})
 				break
@@ -1077,7 +1152,7 @@ func c11RunTLS(c *c11Case, srv *c11Server, sp *tars.ServantProxy, log *c11Log) [
 		srv.closeConns()
 		observed := false
 		for deadline := time.Now().Add(4 * time.Second); time.Now().Before(deadline); time.Sleep(200 * time.Microsecond) {
-			if closed, conn := transport.VerifC11Conn(tcs[0]); closed && conn != nil {
+			if closed, conn := c11ConnOf(tcs[0]); closed && conn != nil {
 				observed = true
 				log.add(c11rawEvent{k: "obs", id: -1, port: c11PortOf(conn.LocalAddr())})
 				break
@@ -1104,7 +1179,7 @@ func c11RunTLS(c *c11Case, srv *c11Server, sp *tars.ServantProxy, log *c11Log) [
 		<-doneX
 		<-doneY
 		if now := tars.VerifC11Clients(sp); len(now) > 0 {
-			if closed, conn := transport.VerifC11Conn(now[0]); conn != nil {
+			if closed, conn := c11ConnOf(now[0]); conn != nil {
 				log.add(c11rawEvent{k: "cflag", id: -1, port: c11PortOf(conn.LocalAddr()), dead: closed})
 			}
 		}
@@ -1112,6 +1187,70 @@ func c11RunTLS(c *c11Case, srv *c11Server, sp *tars.ServantProxy, log *c11Log) [
 			c11OneCall(sp, log, callNo)
 			callNo++
 		}
+	}
+	time.Sleep(5 * time.Millisecond)
+	return c11Canon(log)
+}
+
+// c11RunCut is the script for a server that goes away in the middle of a package: after a successful call it writes
+// only the first CutAt bytes of a push, of the close notification, or of the response to a call (that call, issued
+// before the close, is not judged: it runs into its timeout) and closes the connection. The calls issued after the
+// client has observed the close go over a new connection and must be answered quickly and exactly once: nothing of
+// the incomplete package may be carried over.
+func c11RunCut(c *c11Case, srv *c11Server, sp *tars.ServantProxy, log *c11Log) []c11Event {
+	callNo := 0
+	c11OneCall(sp, log, callNo)
+	callNo++
+	var pending []chan struct{}
+	for round := 0; round < c.Rounds; round++ {
+		tcs := tars.VerifC11Clients(sp)
+		if len(tcs) == 0 {
+			break
+		}
+		if c.CutKind == "response" {
+			srv.mu.Lock()
+			srv.cutNext = c.CutAt
+			srv.mu.Unlock()
+			x := callNo
+			callNo++
+			done := make(chan struct{})
+			pending = append(pending, done)
+			go func() {
+				defer close(done)
+				log.add(c11rawEvent{k: "enq", id: x, down: true})
+				t0 := time.Now()
+				err := c11Call(sp, x)
+				ms := int(time.Since(t0) / time.Millisecond)
+				if err != nil {
+					log.add(c11rawEvent{k: "fail", id: x, ms: ms})
+				} else {
+					log.add(c11rawEvent{k: "reply", id: x, ms: ms})
+				}
+			}()
+		} else {
+			srv.cutConns(c.CutKind, c.CutAt)
+		}
+		observed := false
+		for deadline := time.Now().Add(4 * time.Second); time.Now().Before(deadline); time.Sleep(200 * time.Microsecond) {
+			if closed, conn := c11ConnOf(tcs[0]); closed && conn != nil {
+				observed = true
+				log.add(c11rawEvent{k: "obs", id: -1, port: c11PortOf(conn.LocalAddr())})
+				break
+			}
+		}
+		if !observed {
+			break
+		}
+		if c.DelayUs > 0 {
+			time.Sleep(time.Duration(c.DelayUs) * time.Microsecond)
+		}
+		for b := 0; b < c.Burst; b++ {
+			c11OneCall(sp, log, callNo)
+			callNo++
+		}
+	}
+	for _, d := range pending {
+		<-d
 	}
 	time.Sleep(5 * time.Millisecond)
 	return c11Canon(log)
@@ -1168,6 +1307,7 @@ const (
 	c11SigRedial = "client-conn/healthy-connection-redialled"
 	c11SigSelf   = "client-conn/healthy-connection-closed-by-client"
 	c11SigLate   = "client-conn/failed-call-delivered-later"
+	c11SigCfg    = "client-conn/replacement-client-configured-differently"
 )
 
 func c11Monitor(c *c11Case, evs []c11Event) map[string]string {
@@ -1189,6 +1329,12 @@ func c11Monitor(c *c11Case, evs []c11Event) map[string]string {
 	if c.Mode == "tlsheld" {
 		per, total = 0, 1+c.Rounds*(2+c.Burst)
 	}
+	if c.Mode == "cut" {
+		per, total = 0, 1+c.Rounds*c.Burst
+		if c.CutKind == "response" {
+			total += c.Rounds
+		}
+	}
 	down := map[int]bool{} // calls issued while the server was down: not judged
 	failed := map[int]bool{}
 	arrivals := map[int]int{}
@@ -1206,6 +1352,8 @@ func c11Monitor(c *c11Case, evs []c11Event) map[string]string {
 			}
 		case "pclose":
 			closedByPeer[e.G] = true
+		case "cfgdiff":
+			out[c11SigCfg] = "the transport client installed after the close notification differs from the one it replaces in Proto, QueueLen, a timeout or the TLS configuration"
 		case "cclose":
 			if !closedByPeer[e.G] {
 				out[c11SigSelf] = fmt.Sprintf("the client itself closed connection %d, which the server had neither closed nor announced to close", e.G)
@@ -1243,7 +1391,7 @@ func c11Monitor(c *c11Case, evs []c11Event) map[string]string {
 	}
 	if len(finished) == total {
 		for id := 0; id < total; id++ {
-			if down[id] && failed[id] && arrivals[id] > 0 {
+			if c.Mode == "down" && down[id] && failed[id] && arrivals[id] > 0 {
 				out[c11SigLate] = fmt.Sprintf("call %d returned an error while the server was down, but its request arrived %d time(s) at the server later", id, arrivals[id])
 			}
 			if arrivals[id] != 1 && !down[id] {
@@ -1314,12 +1462,17 @@ func c11Run(c *c11Case) []Failure {
 				what = fmt.Sprintf("send goroutine held just before its write, server closes the connection, %d further call(s) %d us after the observed close, then the goroutine is released", c.Burst, c.DelayUs)
 			} else if c.Mode == "tlsheld" {
 				what = fmt.Sprintf("TLS endpoint with a %v handshake delay; send goroutine held before its write, server closes the connection (receiver reports the loss), a call re-dials, the held goroutine is released while the dial is in progress (its failed write reports the loss a second time), then %d further call(s)", c11HandshakeDelay, c.Burst)
+			} else if c.Mode == "cut" {
+				what = fmt.Sprintf("server closes the connection after the first %d byte(s) of a %s package, %d call(s) %d us after the observed close", c.CutAt, c.CutKind, c.Burst, c.DelayUs)
 			} else if c.Mode == "down" {
 				what = fmt.Sprintf("server closes the connection and stops listening, %d call(s) while it is down (client send queue length %d, 0 = default), server listens again, %d call(s) %d us later", c.Seq, c.QueueLen, c.Burst, c.DelayUs)
 			} else if c.Mode == "pushcmd" {
 				what = fmt.Sprintf("server sends the close notification on the connection in use (closes it itself: %v), calls %v ms after the observed client swap", c.PushClose, c.OffsMs)
 			} else if c.PauseUs > 0 {
 				what += fmt.Sprintf(", %d us idle period inside each round", c.PauseUs)
+			}
+			if c.TLS {
+				what = "ssl endpoint; " + what
 			}
 			fs = append(fs, Failure{Sig: sig, Desc: fmt.Sprintf("%s: %s (reproduced in %d re-runs)", what, first[sig], repro[sig])})
 		}
@@ -1344,7 +1497,7 @@ func c11Coq(c *c11Case) string {
 	sb.WriteString("[")
 	n := 0
 	for _, e := range c.Events {
-		if e.K == "deq" {
+		if e.K == "deq" || e.K == "cfgdiff" {
 			continue // kept in the recorded log for the reader; the dequeue is not a logged action of the model
 		}
 		if n > 0 {
@@ -1430,6 +1583,31 @@ func c11Gen(tier string, rng *rand.Rand) []c11Case {
 		offs := []int{rng.Intn(20), 80 + rng.Intn(40), 380 + rng.Intn(50), 570 + rng.Intn(60), 1150 + rng.Intn(100)}
 		cs = append(cs, c11Case{Mode: "pushcmd", Burst: 1, Seq: 1, Rounds: 2, OffsMs: offs, PushClose: r%2 == 1})
 	}
+	for r := 0; r < reps; r++ {
+		// the same classes over an ssl endpoint (the client's TLS configuration matters on every re-dial and on the
+		// client installed after a close notification)
+		for _, md := range []string{"close", "idle", "restart", "push"} {
+			d := []int{0, 1000, 50000}[rng.Intn(3)]
+			rounds := 3
+			if md == "push" {
+				rounds = 2
+			}
+			cs = append(cs, c11Case{Mode: md, Burst: 1 + rng.Intn(3), Seq: 1 + rng.Intn(2), DelayUs: d, Rounds: rounds, TLS: true})
+		}
+		offs := []int{rng.Intn(20), 80 + rng.Intn(40), 380 + rng.Intn(50), 570 + rng.Intn(60)}
+		cs = append(cs, c11Case{Mode: "pushcmd", Burst: 1, Seq: 1, Rounds: 2, OffsMs: offs, PushClose: r%2 == 1, TLS: true})
+		cs = append(cs, c11Case{Mode: "down", Burst: 1 + rng.Intn(2), Seq: 1, DelayUs: 1000, Rounds: 2, TLS: true})
+	}
+	for r := 0; r < 3*reps; r++ {
+		// the server goes away in the middle of a package
+		kind := []string{"push", "notify", "response"}[r%3]
+		at := []int{1, 3, 4, 5, 9, 1 << 20}[rng.Intn(6)] // inside the length prefix, just after it, inside the body, all but the last byte
+		rounds := 2 + rng.Intn(2)
+		if kind == "response" {
+			rounds = 1 // the cut call runs into its timeout
+		}
+		cs = append(cs, c11Case{Mode: "cut", Burst: 1 + rng.Intn(3), Seq: 1, DelayUs: []int{0, 1000, 50000}[rng.Intn(3)], Rounds: rounds, CutKind: kind, CutAt: at, TLS: r%6 == 5})
+	}
 	for r := 0; r < 2*reps; r++ {
 		// slow re-dial (TLS handshake delay) with the second report of the loss inside the dial window
 		cs = append(cs, c11Case{Mode: "tlsheld", Burst: 1 + r%2, Seq: 1, Rounds: 2 + rng.Intn(2)})
@@ -1511,6 +1689,12 @@ func init() {
 				}
 				if c.QueueLen > 0 {
 					pz += fmt.Sprintf("/q%d", c.QueueLen)
+				}
+				if c.TLS {
+					pz += "/ssl"
+				}
+				if c.CutKind != "" {
+					pz += "/" + c.CutKind
 				}
 				return fmt.Sprintf("%s/b%d/s%d/%s%s", c.Mode, c.Burst, c.Seq, c11DelayClass(c.DelayUs), pz)
 			},
